@@ -86,4 +86,68 @@ theorem planOf_micro (i : Instr) (r : Regs) (f : Flat) :
   | retCC cc => cases cc <;> cases hz : r.zf <;> cases hc : r.cf <;> plan_simp
   | _ => plan_simp
 
+/-! ### the accesses of ONE cycle -/
+
+theorem planOf_ge (ops : List MicroOp) (s : Nat) (r : Regs) (f : Flat) :
+    ∀ p ∈ planOf ops s r f, s ≤ p.1 := by
+  induction ops generalizing s r f with
+  | nil => simp
+  | cons μ rest ih =>
+    intro p hp
+    rw [planOf_cons, List.mem_append] at hp
+    rcases hp with hp | hp
+    · obtain ⟨a, _, rfl⟩ := List.mem_map.1 hp
+      exact Nat.le_refl _
+    · exact Nat.le_of_succ_le (ih _ _ _ p hp)
+
+/-- the entries of the trace numbered `s + j` are exactly the data accesses of the `j`-th micro-operation,
+    made from the registers and the bus the preceding `j` micro-operations left -/
+theorem planOf_filter (ops : List MicroOp) (s j : Nat) (hj : j < ops.length) (r : Regs) (f : Flat) :
+    (planOf ops s r f).filter (fun p => p.1 == s + j) =
+      (dataAccess ops[j] (runList (ops.take j) r f).1 (runList (ops.take j) r f).2).map fun a => (s + j, a) := by
+  induction ops generalizing s j r f with
+  | nil => simp at hj
+  | cons μ rest ih =>
+    rw [planOf_cons, List.filter_append]
+    cases j with
+    | zero =>
+      have h2 : (planOf rest (s + 1) (μ.run r f).1 (μ.run r f).2).filter (fun p => p.1 == s + 0) = [] := by
+        rw [List.filter_eq_nil_iff]
+        intro p hp
+        have := planOf_ge _ _ _ _ p hp
+        simp; omega
+      rw [h2]
+      have h4 : ∀ l : List Access, l.filter (fun _ => true) = l := by
+        intro l; induction l <;> simp_all
+      simp [List.filter_map, Function.comp_def, h4]
+    | succ j =>
+      have h1 : ((dataAccess μ r f).map fun a => (s, a)).filter (fun p => p.1 == s + (j + 1)) = [] := by
+        rw [List.filter_eq_nil_iff]
+        intro p hp
+        obtain ⟨a, _, rfl⟩ := List.mem_map.1 hp
+        simp
+      have h3 : s + (j + 1) = s + 1 + j := by omega
+      rw [h1, h3]
+      have := ih (s + 1) j (by simpa using hj) (μ.run r f).1 (μ.run r f).2
+      simpa using this
+
+theorem evalPlan_filter (p : List (Nat × Kind × AExpr)) (s : St) (k : Nat) :
+    (evalPlan p s).filter (fun x => x.1 == k) = evalPlan (p.filter fun x => x.1 == k) s := by
+  simp [evalPlan, List.filter_map, Function.comp_def]
+
+/-- the micro-operation of machine cycle `k+1` of the effective schedule makes exactly the documented data
+    accesses of cycle `k+1`, from the registers and the bus the first `k` cycles left -/
+theorem dataAccess_at (i : Instr) (r : Regs) (f : Flat) (k : Nat)
+    (hk : k < cyclesOf i (takenOf i (abs r f))) (hk2 : k < (micro i).length) :
+    dataAccess (micro i)[k] (runList ((micro i).take k) r f).1 (runList ((micro i).take k) r f).2 =
+      ((busPlan i (takenOf i (abs r f))).filter fun p => p.1 == k + 1).map
+        fun p => (p.2.1, p.2.2.eval (abs r f)) := by
+  have hlen : k < ((micro i).take (cyclesOf i (takenOf i (abs r f)))).length := by
+    rw [List.length_take]; omega
+  have h := planOf_filter ((micro i).take (cyclesOf i (takenOf i (abs r f)))) 1 k hlen r f
+  rw [planOf_micro, Nat.add_comm 1 k, evalPlan_filter, List.getElem_take, List.take_take,
+    Nat.min_eq_left (Nat.le_of_lt hk)] at h
+  have h2 := congrArg (List.map Prod.snd) h
+  simpa [evalPlan, Function.comp_def] using h2.symm
+
 end Tetro.BusLog
